@@ -106,7 +106,7 @@ def work(shard, rec):
     for i, (cls, t, b) in enumerate(triples):
         t, b = tuple(t), tuple(b)
         if i % 5 == 4:
-            k = SP.TRANSLUCENT_KINDS[(i // 5) % 4]
+            k = (SP.TRANSLUCENT_KINDS + SP.TRANSLUCENT_KINDS_X)[(i // 5) % 8]
             text = SP.spell_translucent(t, rnd.choice(["0.5", "0.75", "0.9", "1", "0.33"]), k)
         else:
             k = kinds[i % len(kinds)]
